@@ -5,6 +5,7 @@ Every case is a two-stage pipeline of real API calls (see coq/C15/Spec.v `call`)
 is what each stage returned (None = it, or the stage before it, raised)."""
 import itertools
 
+import numpy
 import torch
 
 from . import common as C
@@ -13,7 +14,7 @@ PID = 'C15'
 IMPORTS = ['Base.OneHot', 'C15.Model', 'C15.Spec']
 CASE_TYPE = 'case'
 CHECK = 'check_case'
-SHARD = 1000
+SHARD = 100
 RULE = ('round trips: every string up to the tier length (quick 4, thorough 6) over alphabet+ignore, and up to '
         'length 3 (4) with one outside letter, for alphabets of size 1-3, both allow_N settings, all 9 numpy-backed dtypes in '
         'rotation; seeded random ASCII (1..127) alphabets of size 1-8 with ignore sets of size 0-3 and '
@@ -25,12 +26,22 @@ RULE = ('round trips: every string up to the tier length (quick 4, thorough 6) o
         'every (size, overlap) with 1 <= size <= 40, 0 <= overlap < size, 1-4 sequences whose lengths '
         'give 1, 2, 3 and many chunks with every remainder class sampled, unique integer entries so '
         'that a misplaced position is visible, plus rejected configurations (overlap >= size, size > '
-        'length, non-positive size, negative overlap). Non-trivial = chunk case accepted with an odd '
+        'length, non-positive size, negative overlap); forms: every accepted way of handing over each argument '
+        '(alphabet list/str/omitted, ignore list/str/tuple/omitted, dtype omitted, characters alphabet tuple/omitted, '
+        'force on/off, flags omitted, (1,A,L) tensors, transpose views, complement map omitted, unchunk X as tensor / '
+        'numpy / list of numpy / nested lists, lengths as list / tuple / numpy int64,int32 / tensor int64,int32 / numpy '
+        'scalars, size and overlap keyword / positional / numpy / omitted incl. the default size 1024, mixed dtypes in '
+        'one chunk call); sequences: each pipeline after earlier calls of the same process that differ in one thing '
+        '(ignore set, alphabet order/size/case, dtype, a rejected call, complement map pairing/order, allow_N, overlap, '
+        'size, same stride, number of sequences, input form); every argument object is compared with a copy taken '
+        'before the call. Non-trivial = chunk case accepted with an odd '
         'overlap or a sequence of exactly one or two chunks; other kinds: non-empty input')
 EXHAUSTIVE = {'quick': False, 'thorough': False}
 TRUSTED = ['tensors of any dtype are read back as exact integers (a non-integral entry is reported as a spec failure)',
            'chunk/unchunk inputs carry pairwise distinct integers below 2**24 (exact in float32)']
-ASSUMPTIONS = ['torch unfold/cat/flip/slicing and numpy argmax implement the list operations of the model '
+ASSUMPTIONS = ['the functions are pure: the model has no state; statelessness of the implementation is exercised by '
+               'the multi-call sequences, argument objects must be unmodified after every call',
+               'torch unfold/cat/flip/slicing and numpy argmax implement the list operations of the model '
                '(exercised by every case)',
                'bytes 1..127 only: NUL is numpy\'s string padding, non-ASCII letters are multi-byte',
                'dtypes without a numpy counterpart or an order (bfloat16, complex, quantised) are outside '
@@ -82,64 +93,198 @@ def _try(f):
         return None, False
 
 
+# ---- how an argument is handed to the API (the Coq call is the same for every form) ----------
+# inp['forms'] maps an argument name to a form; a missing entry is the plain form.
+#   alpha  (one_hot_encode alphabet): 'list' | 'str' | 'default' (argument omitted; alphabet must be ACGT)
+#   ign    (one_hot_encode ignore):   'list' | 'str' | 'tuple' | 'default' (omitted; must be N)
+#   dtype:                            'kw' | 'default' (omitted; must be int8)
+#   calpha (characters alphabet):     'list' | 'tuple' | 'default'
+#   flags  (force / allow_N / rc allow_N): 'kw' | 'default' (omitted where the value is the default)
+#   pwm    (characters input):        '2d' | 'batch1' (a (1, A, L) tensor)
+#   cmap   (complement_map):          'kw' | 'default' (omitted; must be the DNA map)
+#   ten    (tensor handed to reverse_complement / chunk): 'contig' | 'view' (non-contiguous transpose view)
+#   X      (unchunk X):               'tensor' | 'numpy' | 'list_numpy' | 'nested'
+#   lengths (unchunk lengths):        'list' | 'tuple' | 'np64' | 'np32' | 't64' | 't32' | 'list_np'
+#   size / overlap:                   'kw' | 'pos' | 'default' (omitted; size 1024 / overlap 0) | 'np' (unchunk overlap only)
+
+def form(inp, name, plain):
+    return inp.get('forms', {}).get(name, plain)
+
+
+def _ohe(utils, inp, s, alpha, ign, watch):
+    kw = {}
+    fa, fi = form(inp, 'alpha', 'list'), form(inp, 'ign', 'list')
+    if fa != 'default':
+        kw['alphabet'] = list(alpha) if fa == 'list' else alpha
+        if fa == 'list':
+            watch.append((kw['alphabet'], list(alpha)))
+    if fi != 'default':
+        kw['ignore'] = list(ign) if fi == 'list' else tuple(ign) if fi == 'tuple' else ign
+        if fi == 'list':
+            watch.append((kw['ignore'], list(ign)))
+    if form(inp, 'dtype', 'kw') != 'default':
+        kw['dtype'] = getattr(torch, inp['dtype'])
+    return utils.one_hot_encode(s, **kw)
+
+
+def _chars(utils, inp, X, alpha, watch):
+    kw = {}
+    fc = form(inp, 'calpha', 'list')
+    if fc != 'default':
+        kw['alphabet'] = list(alpha) if fc == 'list' else tuple(alpha)
+        if fc == 'list':
+            watch.append((kw['alphabet'], list(alpha)))
+    dflt = form(inp, 'flags', 'kw') == 'default'
+    if not (dflt and not inp['allowN']):
+        kw['allow_N'] = inp['allowN']
+    if not (dflt and not inp.get('force', False)):
+        kw['force'] = inp.get('force', False)
+    if form(inp, 'pwm', '2d') == 'batch1':
+        X = X[None]
+    keep = X.clone()
+    t = utils.characters(X, **kw)
+    watch.append((X, keep))
+    return t
+
+
+def _rc(utils, inp, seq, cm, watch, with_flag=True):
+    kw = {}
+    if form(inp, 'cmap', 'kw') != 'default':
+        kw['complement_map'] = cm
+        watch.append((cm, dict(cm)))
+    if with_flag and not (form(inp, 'flags', 'kw') == 'default' and inp['allowN']):
+        kw['allow_N'] = inp['allowN']
+    if isinstance(seq, torch.Tensor):
+        keep = seq.clone()
+        r = utils.reverse_complement(seq, **kw)
+        watch.append((seq, keep))
+        return r
+    return utils.reverse_complement(seq, **kw)
+
+
+def _same(a, b):
+    if isinstance(a, torch.Tensor):
+        return isinstance(b, torch.Tensor) and a.shape == b.shape and a.dtype == b.dtype and bool(torch.equal(a, b))
+    if isinstance(a, numpy.ndarray):
+        return a.shape == b.shape and a.dtype == b.dtype and bool((a == b).all())
+    if isinstance(a, (list, tuple)) and a and isinstance(a[0], (torch.Tensor, numpy.ndarray)):
+        return len(a) == len(b) and all(_same(x, y) for x, y in zip(a, b))
+    return type(a) == type(b) and a == b
+
+
+def unchanged(watch):
+    """every (object handed to the API, copy taken before the call) pair still agrees"""
+    return all(_same(a, b) for a, b in watch)
+
+
+def _view(cols, A, dtype):
+    """the same (A, L) tensor as to_tensor, as a non-contiguous transpose view (what one_hot_encode returns)"""
+    dt = getattr(torch, dtype)
+    if not cols:
+        return torch.zeros((0, A), dtype=dt).T
+    return torch.tensor(cols, dtype=torch.int64).to(dt).T
+
+
 def run_impl(inp):
     from tangermeme import utils
+    for p in inp.get('pre', []):                 # earlier calls in the same process, results discarded
+        try:
+            run_impl(p)
+        except Exception:
+            pass
     k = inp['kind']
+    watch = []
+    tensor_of = _view if form(inp, 'ten', 'contig') == 'view' else to_tensor
     if k == 'round':
-        alpha, ign, dt = list(inp['alpha']), list(inp['ign']), getattr(torch, inp['dtype'])
-        X, ok = _try(lambda: utils.one_hot_encode(inp['s'], alphabet=alpha, dtype=dt, ignore=ign))
+        alpha, ign = inp['alpha'], inp['ign']
+        X, ok = _try(lambda: _ohe(utils, inp, inp['s'], alpha, ign, watch))
         if not ok:
             return {'st': [None, None]}
-        ok_dt = X.dtype == dt
-        t, ok = _try(lambda: utils.characters(X, alphabet=alpha, allow_N=inp['allowN']))
-        return {'st': [['ten', from_tensor(X) if ok_dt else BAD],
-                       ['str', codes(t) if isinstance(t, str) else BAD] if ok else None]}
+        ok_dt = isinstance(X, torch.Tensor) and X.dtype == getattr(torch, inp['dtype'])
+        t, ok = _try(lambda: _chars(utils, inp, X, alpha, watch))
+        good = ok_dt and unchanged(watch)
+        return {'st': [['ten', from_tensor(X) if good else BAD],
+                       ['str', codes(t) if isinstance(t, str) and good else BAD] if ok else None]}
     if k == 'back':
-        alpha, ign, dt = list(inp['alpha']), list(inp['ign']), getattr(torch, inp['dtype'])
-        X = to_tensor(inp['X'], len(alpha), inp['dtype'])
-        t, ok = _try(lambda: utils.characters(X, alphabet=alpha, allow_N=inp['allowN']))
+        alpha, ign = inp['alpha'], inp['ign']
+        X = tensor_of(inp['X'], len(alpha), inp['dtype'])
+        t, ok = _try(lambda: _chars(utils, inp, X, alpha, watch))
         if not ok:
             return {'st': [None, None]}
-        Y, ok = _try(lambda: utils.one_hot_encode(t, alphabet=alpha, dtype=dt, ignore=ign))
-        return {'st': [['str', codes(t) if isinstance(t, str) else BAD],
-                       ['ten', from_tensor(Y)] if ok else None]}
+        Y, ok = _try(lambda: _ohe(utils, inp, t, alpha, ign, watch))
+        good = unchanged(watch)
+        return {'st': [['str', codes(t) if isinstance(t, str) and good else BAD],
+                       ['ten', from_tensor(Y) if good else BAD] if ok else None]}
     if k == 'rcstr':
         cm = dict((a, b) for a, b in inp['cmap'])
-        r, ok = _try(lambda: utils.reverse_complement(inp['s'], complement_map=cm, allow_N=inp['allowN']))
+        r, ok = _try(lambda: _rc(utils, inp, inp['s'], cm, watch))
         if not ok:
             return {'st': [None, None]}
-        r2, ok = _try(lambda: utils.reverse_complement(r, complement_map=cm, allow_N=inp['allowN']))
-        return {'st': [['str', codes(r) if isinstance(r, str) else BAD],
-                       ['str', codes(r2) if isinstance(r2, str) else BAD] if ok else None]}
+        r2, ok = _try(lambda: _rc(utils, inp, r, cm, watch))
+        good = unchanged(watch)
+        return {'st': [['str', codes(r) if isinstance(r, str) and good else BAD],
+                       ['str', codes(r2) if isinstance(r2, str) and good else BAD] if ok else None]}
     if k == 'rcten':
         cm = dict((a, b) for a, b in inp['cmap'])
-        X = to_tensor(inp['X'], inp['A'], inp['dtype'])
-        r, ok = _try(lambda: utils.reverse_complement(X, complement_map=cm))
+        X = tensor_of(inp['X'], inp['A'], inp['dtype'])
+        r, ok = _try(lambda: _rc(utils, inp, X, cm, watch, with_flag=False))
         if not ok:
             return {'st': [None, None]}
-        r2, ok = _try(lambda: utils.reverse_complement(r, complement_map=cm))
-        return {'st': [['ten', from_tensor(r)], ['ten', from_tensor(r2)] if ok else None]}
+        r2, ok = _try(lambda: _rc(utils, inp, r, cm, watch, with_flag=False))
+        good = unchanged(watch)
+        return {'st': [['ten', from_tensor(r) if good else BAD], ['ten', from_tensor(r2) if good else BAD] if ok else None]}
     if k == 'agree':
         cm = dict((a, b) for a, b in inp['cmap'])
-        keys, ign, dt = list(cm.keys()), list(inp['ign']), getattr(torch, inp['dtype'])
-        a, oka = _try(lambda: utils.one_hot_encode(
-            utils.reverse_complement(inp['s'], complement_map=cm, allow_N=inp['allowN']),
-            alphabet=keys, dtype=dt, ignore=ign))
-        b, okb = _try(lambda: utils.reverse_complement(
-            utils.one_hot_encode(inp['s'], alphabet=keys, dtype=dt, ignore=ign), complement_map=cm))
-        return {'st': [['ten', from_tensor(a)] if oka else None, ['ten', from_tensor(b)] if okb else None]}
+        keys, ign = ''.join(cm.keys()), inp['ign']
+        a, oka = _try(lambda: _ohe(utils, inp, _rc(utils, inp, inp['s'], cm, watch), keys, ign, watch))
+        b, okb = _try(lambda: _rc(utils, inp, _ohe(utils, inp, inp['s'], keys, ign, watch), cm, watch, with_flag=False))
+        good = unchanged(watch)
+        return {'st': [['ten', from_tensor(a) if good else BAD] if oka else None,
+                       ['ten', from_tensor(b) if good else BAD] if okb else None]}
     if k == 'chunk':
         A, lengths = inp['A'], inp['lengths']
-        xs = [make_seq(i, A, L, inp['dtype'])[1] for i, L in enumerate(lengths)]
-        keep = [x.clone() for x in xs]
-        ch, ok = _try(lambda: utils.chunk(xs, size=inp['size'], overlap=inp['overlap']))
+        dts = inp.get('dtypes') or [inp['dtype']] * len(lengths)
+        xs = [tensor_of(make_seq(i, A, L, 'int64')[0], A, dts[i]) for i, L in enumerate(lengths)]
+        watch.append((xs, [x.clone() for x in xs]))
+        fs, fo = form(inp, 'size', 'kw'), form(inp, 'overlap', 'kw')
+        args, kw = [xs], {}
+        if fs == 'pos':
+            args.append(inp['size'])
+            if fo == 'pos':
+                args.append(inp['overlap'])
+        elif fs != 'default':
+            kw['size'] = inp['size']
+        if fo in ('kw', 'np') or (fo == 'pos' and fs != 'pos'):
+            kw['overlap'] = inp['overlap']
+        ch, ok = _try(lambda: utils.chunk(*args, **kw))
         if not ok:
             return {'st': [None, None]}
-        chl = [from_tensor(c) for c in ch] if isinstance(ch, torch.Tensor) and ch.ndim == 3 else BAD
-        ys, ok = _try(lambda: utils.unchunk(ch, lengths, overlap=inp['overlap']))
-        same = all(torch.equal(a, b) for a, b in zip(xs, keep))
+        good3 = isinstance(ch, torch.Tensor) and ch.ndim == 3
+        chl = [from_tensor(c) for c in ch] if good3 else BAD
+        fx, fl = form(inp, 'X', 'tensor'), form(inp, 'lengths', 'list')
+        if good3:
+            Xa = {'tensor': lambda: ch, 'numpy': lambda: ch.numpy().copy(),
+                  'list_numpy': lambda: [c.numpy().copy() for c in ch], 'nested': lambda: ch.tolist()}[fx]()
+            watch.append((Xa, ch.clone() if fx == 'tensor' else Xa.copy() if fx == 'numpy'
+                          else [c.copy() for c in Xa] if fx == 'list_numpy' else ch.tolist()))
+        else:
+            Xa = ch
+        La = {'list': lambda: list(lengths), 'tuple': lambda: tuple(lengths),
+              'np64': lambda: numpy.array(lengths, dtype=numpy.int64), 'np32': lambda: numpy.array(lengths, dtype=numpy.int32),
+              't64': lambda: torch.tensor(lengths, dtype=torch.int64), 't32': lambda: torch.tensor(lengths, dtype=torch.int32),
+              'list_np': lambda: [numpy.int64(L) for L in lengths]}[fl]()
+        watch.append((La, La.clone() if isinstance(La, torch.Tensor) else La.copy() if isinstance(La, numpy.ndarray)
+                      else type(La)(La)))
+        uargs, ukw = [Xa, La], {}
+        if fo == 'pos':
+            uargs.append(inp['overlap'])
+        elif fo == 'np':
+            ukw['overlap'] = numpy.int64(inp['overlap'])
+        elif fo != 'default':
+            ukw['overlap'] = inp['overlap']
+        ys, ok = _try(lambda: utils.unchunk(*uargs, **ukw))
         if ok:
-            yl = [from_tensor(y) for y in ys] if isinstance(ys, (list, tuple)) and same else BAD
+            yl = [from_tensor(y) for y in ys] if isinstance(ys, (list, tuple)) and unchanged(watch) else BAD
         return {'st': [['batch', chl], ['batch', yl] if ok else None]}
     raise KeyError(k)
 
@@ -171,11 +316,13 @@ def cmap_lit(pairs):
 def coq_case(inp, out):
     k = inp['kind']
     if k == 'round':
-        call = '(CRound %s %s %s %s)' % (C.zlist(codes(inp['alpha'])), C.zlist(codes(inp['ign'])),
-                                         C.zlist(codes(inp['s'])), C.boolean(inp['allowN']))
+        call = '(CRound %s %s %s %s %s)' % (C.zlist(codes(inp['alpha'])), C.zlist(codes(inp['ign'])),
+                                            C.zlist(codes(inp['s'])), C.boolean(inp.get('force', False)),
+                                            C.boolean(inp['allowN']))
     elif k == 'back':
-        call = '(CBack %s %s %s %s)' % (C.zlist(codes(inp['alpha'])), C.zlist(codes(inp['ign'])),
-                                        dna_lit(inp['X']), C.boolean(inp['allowN']))
+        call = '(CBack %s %s %s %s %s)' % (C.zlist(codes(inp['alpha'])), C.zlist(codes(inp['ign'])),
+                                           dna_lit(inp['X']), C.boolean(inp.get('force', False)),
+                                           C.boolean(inp['allowN']))
     elif k == 'rcstr':
         call = '(CRcStr %s %s %s)' % (cmap_lit(inp['cmap']), C.boolean(inp['allowN']), C.zlist(codes(inp['s'])))
     elif k == 'rcten':
@@ -217,6 +364,10 @@ def hist_key(inp, out):
         ns = n_chunks(inp)
         tag += '/n=' + ','.join(sorted(set('1' if n == 1 else '2' if n == 2 else '3' if n == 3 else 'many' for n in ns)))
         tag += '/odd' if inp['overlap'] % 2 else '/even'
+    if any(v not in ('list', 'kw', '2d', 'contig', 'tensor') for v in inp.get('forms', {}).values()):
+        tag += '/forms'
+    if inp.get('pre'):
+        tag += '/after-%d-calls' % len(inp['pre'])
     return '%s/%s' % (k, tag)
 
 
@@ -246,7 +397,7 @@ def gen_chunk(tier, rng):
     # every (size, overlap) up to 40: 1, 2, 3 and many chunks, 1-4 sequences
     counter = 0
     reps = 1 if quick else 3
-    budget = 360 if quick else 700                  # chunk columns per case (literal size)
+    budget = 240 if quick else 700                  # chunk columns per case (literal size)
     for size in range(1, 41):
         for overlap in range(size):
             step = size - overlap
@@ -308,7 +459,7 @@ def gen_round(tier, rng):
                 for allowN in ((True, False) if has_ign or len(s) <= 2 else (bool(k % 2),)):
                     k += 1
                     yield {'kind': 'round', 'alpha': alpha, 'ign': ign, 's': s, 'allowN': allowN,
-                           'dtype': DTYPES[k % len(DTYPES)]}
+                           'force': k % 5 == 0, 'dtype': DTYPES[k % len(DTYPES)]}
     for _ in range(500 if quick else 5000):
         A = rng.randint(1, 8)
         alpha = rand_ascii(rng, A) if rng.random() < 0.7 else ''.join(rng.sample('ACGTNacgtn-.*', A))
@@ -327,7 +478,7 @@ def gen_round(tier, rng):
             p = rng.randrange(L)
             s = s[:p] + rand_ascii(rng, 1, avoid=alpha + ign) + s[p + 1:]
         yield {'kind': 'round', 'alpha': alpha, 'ign': ign, 's': s, 'allowN': rng.random() < 0.6,
-               'dtype': rng.choice(DTYPES)}
+               'force': rng.random() < 0.3, 'dtype': rng.choice(DTYPES)}
 
 
 def onehot(A, k):
@@ -348,7 +499,8 @@ def gen_back(tier, rng):
                 for allowN in (True, False):
                     k += 1
                     yield {'kind': 'back', 'alpha': alpha, 'ign': ['N', 'N', 'X', ''][k % 4], 'allowN': allowN,
-                           'X': [onehot(A, j) for j in t], 'dtype': DTYPES[k % len(DTYPES)]}
+                           'force': k % 5 == 0, 'X': [onehot(A, j) for j in t], 'dtype': DTYPES[k % len(DTYPES)],
+                           'forms': {'ten': 'view'} if k % 3 == 0 else {}}
     for _ in range(300 if quick else 3000):
         A = rng.randint(1, 8)
         alpha = rand_ascii(rng, A) if rng.random() < 0.5 else ''.join(rng.sample('ACGTNWSY', A))
@@ -374,7 +526,8 @@ def gen_back(tier, rng):
                 X[p] = [rng.randint(-3, 5) for _i in range(A)]
             else:
                 X = [c + [0] for c in X]
-        yield {'kind': 'back', 'alpha': alpha, 'ign': ign, 'allowN': rng.random() < 0.6, 'X': X, 'dtype': dtype}
+        yield {'kind': 'back', 'alpha': alpha, 'ign': ign, 'allowN': rng.random() < 0.6, 'force': rng.random() < 0.3,
+               'X': X, 'dtype': dtype, 'forms': {'ten': rng.choice(['contig', 'view'])}}
 
 
 def rand_cmap(rng):
@@ -398,7 +551,8 @@ def rand_cmap(rng):
     return [[k, v] for k, v in zip(keys, vals)]
 
 
-FIXED_MAPS = [DNA, [['A', 'T'], ['T', 'A']], [['A', 'A']], [['A', 'C'], ['C', 'A'], ['G', 'G']],
+NMAP = [['A', 'N'], ['C', 'G'], ['G', 'C'], ['N', 'A']]          # N is an ordinary letter of the map
+FIXED_MAPS = [DNA, [['A', 'T'], ['T', 'A']], [['A', 'A']], [['A', 'C'], ['C', 'A'], ['G', 'G']], NMAP, [['N', 'X'], ['X', 'N']],
               [['A', 'C'], ['C', 'G'], ['G', 'A']]]
 
 
@@ -408,12 +562,12 @@ def gen_rc(tier, rng):
     k = 0
     for cm in FIXED_MAPS:
         keys = ''.join(a for a, _b in cm)
-        for s in all_strings(keys + 'N', maxlen):
+        for s in all_strings(keys + ('' if 'N' in keys else 'N'), maxlen):
             k += 1
             allowN = k % 3 != 0
             yield {'kind': 'rcstr', 'cmap': cm, 'allowN': allowN, 's': s}
-            yield {'kind': 'agree', 'cmap': cm, 'ign': 'N' if k % 5 else '', 'allowN': allowN, 's': s,
-                   'dtype': DTYPES[k % len(DTYPES)]}
+            yield {'kind': 'agree', 'cmap': cm, 'ign': 'N' if (k % 5 and 'N' not in keys) else '', 'allowN': allowN,
+                   's': s, 'dtype': DTYPES[k % len(DTYPES)]}
     for _ in range(400 if quick else 4000):
         cm = rand_cmap(rng)
         keys = ''.join(a for a, _b in cm)
@@ -435,12 +589,176 @@ def gen_rc(tier, rng):
             L = rng.choice([0, 1, 2, 3, 8, 30])
             if L == 0:
                 A = len(cm)
-            X = [[rng.randint(-4, 9) for _a in range(A)] for _i in range(L)]
-            yield {'kind': 'rcten', 'cmap': cm, 'A': A, 'X': X, 'dtype': rng.choice(WIDE)}
+            if rng.random() < 0.4:          # 0/1 entries: every dtype can hold them
+                X = [[rng.randint(0, 1) for _a in range(A)] for _i in range(L)]
+                dtype = rng.choice(DTYPES)
+            else:
+                X = [[rng.randint(-4, 9) for _a in range(A)] for _i in range(L)]
+                dtype = rng.choice(WIDE)
+            yield {'kind': 'rcten', 'cmap': cm, 'A': A, 'X': X, 'dtype': dtype,
+                   'forms': {'ten': rng.choice(['contig', 'view'])}}
+
+
+def rand_str(rng, pool, L):
+    return ''.join(rng.choice(pool) for _i in range(L))
+
+
+def gen_forms(tier, rng):
+    """every accepted way of handing over each argument, argument defaults, force, batch-1 tensors"""
+    quick = tier != 'thorough'
+    # one_hot_encode / characters on the default alphabet: the full product of forms (defaults included)
+    k = 0
+    for fa, fi, fd, fc, ff, fp in itertools.product(('list', 'str', 'default'), ('list', 'str', 'tuple', 'default'),
+                                                    ('kw', 'default'), ('list', 'tuple', 'default'),
+                                                    ('kw', 'default'), ('2d', 'batch1')):
+        for force, allowN in ((False, False), (False, True), (True, False), (True, True)):
+            k += 1
+            if quick and k % 2:
+                continue
+            s = rand_str(rng, 'ACGTN' if allowN or k % 3 else 'ACGT', rng.choice([0, 1, 2, 5, 9]))
+            if k % 17 == 0:
+                s += 'x'
+            forms = {'alpha': fa, 'ign': fi, 'dtype': fd, 'calpha': fc, 'flags': ff, 'pwm': fp}
+            yield {'kind': 'round', 'alpha': 'ACGT', 'ign': 'N', 's': s, 'allowN': allowN, 'force': force,
+                   'dtype': 'int8', 'forms': forms}
+            if k % 4 == 0:
+                X = [onehot(4, rng.randrange(-1 if allowN else 0, 4)) for _i in range(rng.choice([0, 1, 3, 6]))]
+                yield {'kind': 'back', 'alpha': 'ACGT', 'ign': 'N', 'X': X, 'allowN': allowN, 'force': force,
+                       'dtype': 'int8', 'forms': dict(forms, ten=rng.choice(['contig', 'view']))}
+    # other alphabets / ignore sets / dtypes with the non-default forms
+    for _ in range(150 if quick else 1500):
+        A = rng.randint(1, 8)
+        alpha = rand_ascii(rng, A) if rng.random() < 0.5 else ''.join(rng.sample('ACGTNWSY', A))
+        ign = rand_ascii(rng, rng.choice([0, 1, 2]), avoid=alpha) + ('N' if 'N' not in alpha and rng.random() < 0.6 else '')
+        forms = {'alpha': rng.choice(['list', 'str']), 'ign': rng.choice(['list', 'str', 'tuple']),
+                 'calpha': rng.choice(['list', 'tuple']), 'flags': rng.choice(['kw', 'default']),
+                 'pwm': rng.choice(['2d', 'batch1'])}
+        s = rand_str(rng, alpha + ign, rng.choice([0, 1, 2, 5, 12, 40]))
+        yield {'kind': 'round', 'alpha': alpha, 'ign': ign, 's': s, 'allowN': rng.random() < 0.6,
+               'force': rng.random() < 0.4, 'dtype': rng.choice(DTYPES), 'forms': forms}
+    # reverse_complement with its defaults (DNA map omitted, allow_N omitted), views, one-hot tensors of every dtype
+    k = 0
+    for fm, ff, ft in itertools.product(('kw', 'default'), ('kw', 'default'), ('contig', 'view')):
+        for _ in range(6 if quick else 30):
+            k += 1
+            allowN = k % 4 != 0
+            s = rand_str(rng, 'ACGTN' if allowN else 'ACGT', rng.choice([0, 1, 2, 5, 11]))
+            forms = {'cmap': fm, 'flags': ff, 'ten': ft}
+            yield {'kind': 'rcstr', 'cmap': DNA, 'allowN': allowN, 's': s, 'forms': forms}
+            yield {'kind': 'agree', 'cmap': DNA, 'ign': 'N', 'allowN': allowN, 's': s, 'dtype': DTYPES[k % len(DTYPES)],
+                   'forms': dict(forms, alpha=rng.choice(['list', 'str']), ign=rng.choice(['list', 'str', 'tuple']))}
+            L = rng.choice([0, 1, 2, 7])
+            yield {'kind': 'rcten', 'cmap': DNA, 'A': 4, 'X': [onehot(4, rng.randrange(-1, 4)) for _i in range(L)],
+                   'dtype': DTYPES[k % len(DTYPES)], 'forms': forms}
+    # unchunk: every form of X and of lengths, overlap / size positional, keyword, numpy, omitted
+    k = 0
+    for fx, fl in itertools.product(('tensor', 'numpy', 'list_numpy', 'nested'),
+                                    ('list', 'tuple', 'np64', 'np32', 't64', 't32', 'list_np')):
+        for fo in ('kw', 'pos', 'np', 'default'):
+            for _ in range(1 if quick else 4):
+                k += 1
+                size = rng.randint(1, 9)
+                overlap = 0 if fo == 'default' else rng.randrange(size)
+                B = rng.randint(1, 3)
+                ns = [rng.choice([1, 2, 3, 5]) for _i in range(B)]
+                ns[rng.randrange(B)] = [1, 2, 3, 4][k % 4]
+                extras = [rng.randrange(size - overlap) for _i in range(B)]
+                inp = chunk_input(size, overlap, ns, extras, rng.choice([1, 2, 3]), rng.choice(BIG))
+                inp['forms'] = {'X': fx, 'lengths': fl, 'overlap': fo, 'size': 'pos' if fo == 'pos' or k % 2 else 'kw',
+                                'ten': 'view' if k % 3 == 0 else 'contig'}
+                yield inp
+    # sequences of different dtypes in one call (torch.cat promotes; the entries stay exact)
+    for _ in range(40 if quick else 300):
+        size = rng.randint(1, 12)
+        overlap = rng.randrange(size)
+        B = rng.randint(2, 4)
+        ns = [rng.choice([1, 2, 3, 6]) for _i in range(B)]
+        extras = [rng.randrange(size - overlap) for _i in range(B)]
+        inp = chunk_input(size, overlap, ns, extras, rng.choice([1, 2]), 'int64')
+        inp['dtypes'] = [rng.choice(BIG + ['int16', 'float64']) for _i in range(B)]
+        inp['forms'] = {'ten': rng.choice(['contig', 'view']), 'lengths': rng.choice(['list', 'np64', 't64'])}
+        yield inp
+    # the default chunk size (1024), with the default overlap and with an explicit one
+    for n, overlap, e in ((1, 0, 0), (2, 0, 37), (1, 7, 100), (2, 513, 0)) if quick else \
+            ((1, 0, 0), (2, 0, 37), (1, 7, 100), (2, 513, 0), (3, 1, 5), (3, 1023, 0), (2, 1, 1022)):
+        inp = chunk_input(1024, overlap, [n], [e], 1, 'int32')
+        inp['forms'] = {'size': 'default', 'overlap': 'default' if overlap == 0 else 'kw'}
+        yield inp
+
+
+def gen_sequences(tier, rng):
+    """calls that follow other calls in the same process with ONE thing changed (stale caches, leaked
+    module state, modified defaults): the earlier calls are part of the input ('pre') so that a replay
+    reproduces them"""
+    quick = tier != 'thorough'
+    reps = 1 if quick else 6
+    alphas = ['ACGT', 'A', 'AC', 'ACGTU']
+    for _ in range(reps):
+        for alpha in alphas:
+            A = len(alpha)
+            perm = ''.join(rng.sample(alpha, A))
+            variants = [('ign', alpha, 'X'), ('ign', alpha, ''), ('ign', alpha, 'NX'), ('alpha', perm, 'N'),
+                        ('alpha', alpha[:-1] or 'C', 'N'), ('alpha', alpha + 'W', 'N'), ('alpha', alpha.lower(), 'N'),
+                        ('dtype', alpha, 'N'), ('reject', alpha, 'N')]
+            for what, a2, i2 in variants:
+                s = rand_str(rng, alpha + 'NX', rng.choice([1, 2, 4, 7])) + rng.choice(['', 'N', 'X', alpha[-1]])
+                base = {'kind': 'round', 'alpha': alpha, 'ign': 'N', 's': s, 'allowN': True, 'force': False,
+                        'dtype': 'int8'}
+                other = dict(base, alpha=a2, ign=i2, dtype='float32' if what == 'dtype' else 'int8')
+                if what == 'reject':
+                    other = dict(base, s=s + '?')
+                for first, second in ((base, other), (other, base)):
+                    yield dict(second, pre=[dict(first, s=rand_str(rng, first['alpha'] + first['ign'], 3))])
+                yield dict(other, pre=[base, other, base])
+                X = [onehot(A, rng.randrange(-1, A)) for _i in range(rng.choice([1, 3, 5]))]
+                yield {'kind': 'back', 'alpha': alpha, 'ign': 'N', 'X': X, 'allowN': True, 'force': False,
+                       'dtype': 'int8', 'pre': [other]}
+    # reverse complement: the same keys paired differently, the same map with allow_N flipped, reordered keys
+    maps = [DNA, [['A', 'C'], ['C', 'A'], ['G', 'T'], ['T', 'G']], [['T', 'A'], ['G', 'C'], ['C', 'G'], ['A', 'T']],
+            [['A', 'A'], ['C', 'C'], ['G', 'G'], ['T', 'T']], NMAP]
+    for _ in range(reps):
+        for m1 in maps:
+            for m2 in maps:
+                if m1 is m2:
+                    continue
+                s = rand_str(rng, 'ACGTN', rng.choice([1, 2, 5, 9]))
+                pre = [{'kind': 'rcstr', 'cmap': m1, 'allowN': True, 's': rand_str(rng, 'ACGT', 4),
+                        'forms': {'cmap': 'default'} if m1 is DNA else {}},
+                       {'kind': 'rcten', 'cmap': m1, 'A': 4, 'X': [onehot(4, j) for j in (0, 1, 2, 3)], 'dtype': 'int8',
+                        'forms': {'cmap': 'default'} if m1 is DNA else {}}]
+                dflt = {'cmap': 'default', 'flags': 'default'} if m2 is DNA else {}
+                yield {'kind': 'rcstr', 'cmap': m2, 'allowN': True, 's': s, 'pre': pre, 'forms': dflt}
+                yield {'kind': 'agree', 'cmap': m2, 'ign': '' if m2 is NMAP else 'N', 'allowN': True, 's': s,
+                       'dtype': 'int8', 'pre': pre, 'forms': dflt}
+                yield {'kind': 'rcten', 'cmap': m2, 'A': 4, 'X': [[rng.randint(-3, 9) for _a in range(4)] for _i in range(3)],
+                       'dtype': 'int32', 'pre': pre, 'forms': {'cmap': 'default'} if m2 is DNA else {}}
+        yield {'kind': 'rcstr', 'cmap': DNA, 'allowN': True, 's': 'ACGTN',
+               'pre': [{'kind': 'rcstr', 'cmap': DNA, 'allowN': False, 's': 'ACGTN'}]}
+    # chunk / unchunk after a call with another overlap, size, number of sequences, dtype or X form
+    for _ in range(reps):
+        for size in (1, 2, 3, 4, 5, 8, 13):
+            for overlap in sorted(set([0, 1, size // 2, size - 1])):
+                if overlap >= size:
+                    continue
+                B = rng.randint(1, 3)
+                ns = [rng.choice([1, 2, 3, 5]) for _i in range(B)]
+                extras = [rng.randrange(size - overlap) for _i in range(B)]
+                base = chunk_input(size, overlap, ns, extras, rng.choice([1, 2]), 'int64')
+                o2 = rng.choice([o for o in range(size) if o != overlap] or [0])
+                s2 = size + rng.choice([1, 2])
+                others = [chunk_input(size, o2, ns, [0] * B, base['A'], 'int64'),
+                          chunk_input(size + 1, overlap + 1, ns, [0] * B, base['A'], 'int64'),      # same stride
+                          chunk_input(s2, min(overlap, s2 - 1), ns, [0] * B, base['A'], 'int64'),
+                          chunk_input(size, overlap, ns + [2], extras + [0], base['A'], 'float32'),
+                          dict(chunk_input(size, overlap, [1], [0], base['A'], 'int64'),
+                               forms={'X': 'numpy', 'lengths': 'np64'})]
+                for other in others:
+                    yield dict(base, pre=[other])
+                yield dict(base, pre=others + [base])
 
 
 def generate(tier, rng):
-    for g in (gen_chunk, gen_round, gen_back, gen_rc):
+    for g in (gen_chunk, gen_round, gen_back, gen_rc, gen_forms, gen_sequences):
         for inp in g(tier, rng):
             yield inp
 
@@ -450,11 +768,27 @@ def generate(tier, rng):
 
 def shrink(inp):
     k = inp['kind']
+    if inp.get('pre'):                              # fewer earlier calls first
+        yield dict(inp, pre=[])
+        if len(inp['pre']) > 1:
+            for i in range(len(inp['pre'])):
+                yield dict(inp, pre=inp['pre'][:i] + inp['pre'][i + 1:])
+    if inp.get('forms'):                            # then the plain way of passing every argument
+        if not (form(inp, 'size', 'kw') == 'default'):
+            yield dict(inp, forms={})
+        for name in list(inp['forms']):
+            if name != 'size':
+                yield dict(inp, forms={n: v for n, v in inp['forms'].items() if n != name})
+    if inp.get('force'):
+        yield dict(inp, force=False)
     if k == 'chunk':
         B = len(inp['lengths'])
         if B > 1:
             for i in range(B):
-                yield dict(inp, lengths=inp['lengths'][:i] + inp['lengths'][i + 1:])
+                c = dict(inp, lengths=inp['lengths'][:i] + inp['lengths'][i + 1:])
+                if inp.get('dtypes'):
+                    c['dtypes'] = inp['dtypes'][:i] + inp['dtypes'][i + 1:]
+                yield c
         if inp['A'] > 1:
             yield dict(inp, A=1)
         step = inp['size'] - inp['overlap']
